@@ -273,14 +273,14 @@ class PageStream(Stream):
 
 
 EXITS = ["success", "no-candidate", "bad-metadata", "unusable-find-links", "unusable-source", "missing-input", "no-repository",
-         "setup-requirements-unavailable"]
+         "setup-requirements-unavailable", "missing-constraints", "malformed-constraints", "unknown-option-in-file"]
 
 
 class CliExitStream(Stream):
     """temporary wheel directory after every way a command-line run can end; a user-supplied one is never deleted"""
     name = "cli-exits"
-    quick_n = 14
-    thorough_n = 120
+    quick_n = 20
+    thorough_n = 160
     batch = 7
 
     def setup(self):
@@ -321,6 +321,15 @@ class CliExitStream(Stream):
             args = [os.path.join(d, "missing.txt"), "--no-index", "--find-links", links]
         elif case["exit"] == "no-repository":
             args = [os.path.join(d, "in.txt"), "--no-index"]
+        elif case["exit"] == "missing-constraints":
+            args += ["-c", os.path.join(d, "no-such-constraints.txt")]
+        elif case["exit"] == "malformed-constraints":
+            with open(os.path.join(d, "cons.txt"), "w") as f:
+                f.write("foo==\n")
+            args += ["-c", os.path.join(d, "cons.txt")]
+        elif case["exit"] == "unknown-option-in-file":
+            with open(os.path.join(d, "in.txt"), "w") as f:
+                f.write("--trusted-host pypi.example\nfoo\n")
         userdir = os.path.join(d, "userwheels")
         if case["user_wheeldir"]:
             os.makedirs(userdir)
@@ -348,7 +357,7 @@ class CliExitStream(Stream):
             fails.append(("C15/user-wheel-directory-deleted/" + case["exit"], r))
         if r["traceback"]:
             fails.append(("C15/traceback/" + case["exit"], r))
-        exp = 0 if case["exit"] in ("success", "setup-requirements-unavailable") else 1
+        exp = 0 if case["exit"] in ("success", "setup-requirements-unavailable") else (2 if case["exit"] == "unknown-option-in-file" else 1)
         if r["rc"] != exp:
             fails.append(("C15/exit-status/" + case["exit"], r))
         return fails
